@@ -9,6 +9,7 @@ import (
 	"net"
 	"os"
 	"os/exec"
+	"runtime"
 	"path/filepath"
 	"runtime/debug"
 	"runtime/pprof"
@@ -272,6 +273,11 @@ func c15setup(tier string, seed uint64) int {
 				c15.gated = append(c15.gated, c15gated{Kind: "accept-fails-hard", Listeners: l, Plain: e, Rep: rep})
 			}
 		}
+		// the port is switched off in the configuration of the RUNNING server (a client's CONFIG SET port 0, or the
+		// application's SetPort(0) / SetTLSPort(0) before a Restart that is to come up without it); then Stop
+		for _, v := range []struct{ l, how string }{{"plain", "config-set-port-0"}, {"plain", "SetPort(0)"}, {"both", "config-set-port-0"}, {"both", "SetPort(0)"}, {"both", "SetTLSPort(0)"}, {"tls", "SetTLSPort(0)"}} {
+			c15.gated = append(c15.gated, c15gated{Kind: "stop-after-port-switched-off", Listeners: v.l, Plain: v.how, Rep: rep})
+		}
 		// Stop while all registered clients hang up (free-running: Stop's walk over the registry races with the
 		// connection goroutines finishing on their own)
 		hangups := map[string]int{"quick": 18, "thorough": 60}[tier]
@@ -394,6 +400,9 @@ func c15runGated(idx int, g c15gated) run.Result {
 	}
 	if g.Kind == "accept-fails-hard" {
 		return acceptFailsHard(idx, g)
+	}
+	if g.Kind == "stop-after-port-switched-off" {
+		return stopAfterPortOff(idx, g)
 	}
 	var res run.Result
 	res.Idx = idx
@@ -937,6 +946,164 @@ func acceptFailsHard(idx int, g c15gated) run.Result {
 	res.AddSet("schedules", fmt.Sprint(g.Kind, g.Listeners, g.Plain))
 	res.Sample = desc
 	return res
+}
+
+// stopAfterPortOff: a port is switched off in the configuration while the server runs, then Stop is called. Stop
+// has to come back and leave what it promises - for the listeners the server HOLDS, whatever the configuration
+// says now. The scenario runs in a victim process (`vcheck c15-portoff-victim`): a Stop that never returns cannot
+// be undone inside a process that has more cases to run.
+func stopAfterPortOff(idx int, g c15gated) run.Result {
+	var res run.Result
+	res.Idx = idx
+	res.Classes = []string{"gated:" + g.Kind}
+	res.Key = gen.Hash64([]byte(fmt.Sprint(g)))
+	res.NonTrivial = true
+	desc := map[string]any{"scenario": g.Kind, "listeners": g.Listeners, "how": g.Plain, "rep": g.Rep}
+	sconn.NextSeq()
+	self, err := os.Executable()
+	if err != nil {
+		res.Inconclusive = "own executable unknown"
+		return res
+	}
+	ctx, cancel := context.WithTimeout(context.Background(), 150*time.Second)
+	defer cancel()
+	cmd := exec.CommandContext(ctx, self, "c15-portoff-victim", g.Listeners, g.Plain)
+	cmd.Env = append(os.Environ(), "GORACE=halt_on_error=0 history_size=3")
+	var stderr bytes.Buffer
+	cmd.Stderr = &stderr
+	done := make(chan struct{})
+	go func() {
+		for {
+			select {
+			case <-done:
+				return
+			case <-time.After(500 * time.Millisecond):
+				sconn.NextSeq()
+			}
+		}
+	}()
+	out, runErr := cmd.Output()
+	close(done)
+	var victim *run.Result
+	for _, l := range bytes.Split(out, []byte("\n")) {
+		if bytes.HasPrefix(l, []byte("RESULT ")) {
+			var r run.Result
+			if json.Unmarshal(l[len("RESULT "):], &r) == nil {
+				victim = &r
+			}
+		}
+	}
+	if victim == nil {
+		res.Inconclusive = fmt.Sprintf("the victim process gave no result (%v): %s", runErr, clipS(stderr.String(), 300))
+		return res
+	}
+	if victim.Inconclusive != "" {
+		res.Inconclusive = victim.Inconclusive
+		return res
+	}
+	for k, v := range victim.Counters {
+		res.Count(k, v)
+	}
+	for _, v := range victim.Violations {
+		res.Violate(v.Sig, v.Clause, v.Detail, desc)
+	}
+	res.AddSet("schedules", fmt.Sprint(g.Kind, g.Listeners, g.Plain))
+	res.Sample = desc
+	return res
+}
+
+// c15PortOffVictimMain: `vcheck c15-portoff-victim <listeners> <how>`.
+func c15PortOffVictimMain(args []string) int {
+	var res run.Result
+	emit := func() int {
+		b, _ := json.Marshal(&res)
+		fmt.Printf("RESULT %s\n", b)
+		os.Stdout.Sync()
+		os.Exit(0) // a hung Stop must not keep the victim alive
+		return 0
+	}
+	if len(args) < 2 {
+		return 2
+	}
+	listeners, how := args[0], args[1]
+	sig := "C15:stop-after-port-switched-off:" + listeners + ":" + how
+	s := newLcServer(listeners)
+	if s == nil {
+		res.Inconclusive = "pki unavailable"
+		return emit()
+	}
+	if err := s.srv.Start(); err != nil {
+		res.Inconclusive = "Start failed: " + err.Error()
+		return emit()
+	}
+	if why := s.probeServing(); why != "" {
+		res.Violate(sig+":initial", "after Start returns the server serves on every enabled port", why, nil)
+		return emit()
+	}
+	switch how {
+	case "config-set-port-0":
+		c, err := s.dial(false)
+		if err != nil {
+			res.Inconclusive = "client could not connect"
+			return emit()
+		}
+		v, err := c.do("CONFIG", "SET", "port", "0")
+		c.c.Close()
+		s.closed++
+		if err != nil || !resp.Equal(v, resp.Status("OK")) {
+			res.Inconclusive = fmt.Sprintf("CONFIG SET port 0 was not accepted: %v %v", v, err)
+			return emit()
+		}
+	case "SetPort(0)":
+		s.srv.SetPort(0)
+	case "SetTLSPort(0)":
+		s.srv.SetTLSPort(0)
+	}
+	stopped := make(chan error, 1)
+	go func() { stopped <- s.srv.Stop() }()
+	var stopErr error
+	select {
+	case stopErr = <-stopped:
+	case <-time.After(10 * time.Second):
+		// watchdog. The verdict is structural: Stop is parked waiting for the accept loops while an accept loop is
+		// parked in Accept on a listener that nobody is going to close - no event can end this wait.
+		_, dump := serverGoroutines()
+		all := make([]byte, 1<<20)
+		all = all[:runtime.Stack(all, true)]
+		stopWaits := false
+		for _, g := range strings.Split(string(all), "\n\n") {
+			if strings.Contains(g, "(*Server).Stop") && (strings.Contains(g, "sync.(*WaitGroup).Wait") || strings.Contains(g, "sync.(*Mutex).Lock") || strings.Contains(g, "sync.(*RWMutex)")) {
+				stopWaits = true
+			}
+		}
+		loopInAccept := strings.Contains(dump, ".Accept(")
+		if stopWaits && loopInAccept && busyServerGoroutines() == 0 {
+			res.Violate(sig+":stop-never-returns", "after Stop returns the ports can be bound again ... (Stop has to return)", "10 s after the call Stop is parked waiting for the accept loops while an accept loop is parked in Accept on a listener that was not closed:\n"+clipS(dump, 1500), nil)
+		} else {
+			res.Inconclusive = "Stop did not return within the watchdog, without the structural witness"
+		}
+		return emit()
+	}
+	if !afterStopReturned(&res, s, sig, stopErr, nil) {
+		return emit()
+	}
+	// the ports the server held are free; with the port switched back on a new Start works and serves
+	if s.plain != 0 {
+		s.srv.SetPort(s.plain)
+	}
+	if s.tls != 0 {
+		s.srv.SetTLSPort(s.tls)
+	}
+	if err := s.srv.Start(); err != nil {
+		res.Violate(sig+":start-after-stop", "after Stop returns the ports can be bound again and Start works", "Start after Stop failed: "+err.Error(), nil)
+		return emit()
+	}
+	if why := s.probeServing(); why != "" {
+		res.Violate(sig+":not-serving-after-second-start", "after Start returns the server serves on every enabled port", why, nil)
+	}
+	s.srv.Stop()
+	res.Count("port_switched_off_runs", 1)
+	return emit()
 }
 
 // c15AcceptVictimMain: `vcheck c15-accept-victim <listeners>`, run under strace by acceptFailsHard.
@@ -1489,10 +1656,11 @@ var _ = resp.Cmd
 
 func init() {
 	extra["c15-accept-victim"] = c15AcceptVictimMain
+	extra["c15-portoff-victim"] = c15PortOffVictimMain
 	run.Register(&run.Prop{
 		ID: "C15", Level: "fault_enumeration",
 		Rule: func(tier string) string {
-			return "two parts. (gated, hook H2) a controller parks goroutines at named schedule points and releases them in a chosen order: Restart vs the exiting accept loops for {plain, TLS, both} listeners with each old loop's exit (and its deferred close) placed before Stop returns / after the new listeners are open / concurrently (3, 3 and 9 placements); Stop vs a connection accepted while Stop is between its two phases; Stop vs connection goroutines parked at their exit point; Stop in the middle of a connect storm (16 dialing goroutines, repeated; a connection that answers after Stop returned, or that is still registered at a fixed point, is a violation); Stop while a client whose handler is still running has already gone away by reset or FIN (the reset is known to have arrived when the kernel no longer lists the server-side socket); Stop while 24..64 registered clients hang up by FIN and reset at the same moment (free-running, repeated). What Stop promises is probed whenever Stop returns, with or without an error. Stop while a client of the TLS port has connected but not sent its ClientHello (it must see EOF or a reset within 3 s). Restart while an accepted connection's goroutine is held at its first step (schedule point conn.accepted), before it has registered: the connection must not be served afterwards. A Start that fails in its TLS half (the TLS port is held by another socket) must leave the plain port bindable, and after Stop a new Start must work. A transient Accept failure: every free descriptor of the process is taken, one client per port is left waiting in the listen queue so that Accept fails with EMFILE, the descriptors are released, and every port must serve again. A hard Accept failure: the scenario (Start, six service requests per port, Stop and its postconditions, Start, six requests, Restart, six requests) runs in a victim process under strace fault injection, every second accept4 call failing with one of ENOBUFS, EPROTO, EHOSTUNREACH, EMFILE (thorough: also ENOMEM, EPERM, ENETDOWN, ENFILE, EOPNOTSUPP) - errors the runtime does not mark temporary as well as ones it does; the injections are counted from strace's log. Postconditions probed after everything is released: dial+PING on every enabled port (twice), bind probe, client-side EOF, Conns() empty, goroutine profile. (histories) ALL call sequences over {Start, Stop, Restart} up to length 4 (quick) / 6 (thorough) x {plain, plain+TLS} with 0..3 clients connecting, idling or disconnecting between calls (and, on the TLS port, clients that a common-name rule refuses after their handshake); after each call the promise of that call is probed, and at quiescent instants len(Conns()) must equal the number of client sockets held open (waiting on the conn.deregistered point, not on time). Start on a running server is tagged start-while-running. A goroutine leak is only reported when the count stays above baseline for the whole grace window; a goroutine parked at its own schedule point after Stop returned is a strict violation. Children are race-detector builds. distinct = scenario/sequence"
+			return "two parts. (gated, hook H2) a controller parks goroutines at named schedule points and releases them in a chosen order: Restart vs the exiting accept loops for {plain, TLS, both} listeners with each old loop's exit (and its deferred close) placed before Stop returns / after the new listeners are open / concurrently (3, 3 and 9 placements); Stop vs a connection accepted while Stop is between its two phases; Stop vs connection goroutines parked at their exit point; Stop in the middle of a connect storm (16 dialing goroutines, repeated; a connection that answers after Stop returned, or that is still registered at a fixed point, is a violation); Stop while a client whose handler is still running has already gone away by reset or FIN (the reset is known to have arrived when the kernel no longer lists the server-side socket); Stop while 24..64 registered clients hang up by FIN and reset at the same moment (free-running, repeated). What Stop promises is probed whenever Stop returns, with or without an error. Stop while a client of the TLS port has connected but not sent its ClientHello (it must see EOF or a reset within 3 s). Restart while an accepted connection's goroutine is held at its first step (schedule point conn.accepted), before it has registered: the connection must not be served afterwards. A Start that fails in its TLS half (the TLS port is held by another socket) must leave the plain port bindable, and after Stop a new Start must work. A transient Accept failure: every free descriptor of the process is taken, one client per port is left waiting in the listen queue so that Accept fails with EMFILE, the descriptors are released, and every port must serve again. A hard Accept failure: the scenario (Start, six service requests per port, Stop and its postconditions, Start, six requests, Restart, six requests) runs in a victim process under strace fault injection, every second accept4 call failing with one of ENOBUFS, EPROTO, EHOSTUNREACH, EMFILE (thorough: also ENOMEM, EPERM, ENETDOWN, ENFILE, EOPNOTSUPP) - errors the runtime does not mark temporary as well as ones it does; the injections are counted from strace's log. A port switched off in the configuration of the running server (a client's CONFIG SET port 0, the application's SetPort(0) or SetTLSPort(0)) followed by Stop, in a victim process: Stop must return (10 s watchdog; the verdict is structural - Stop parked waiting for the accept loops while a loop is parked in Accept on a listener nobody closed), the ports the server HELD must be free, and with the port switched on again a new Start serves. Postconditions probed after everything is released: dial+PING on every enabled port (twice), bind probe, client-side EOF, Conns() empty, goroutine profile. (histories) ALL call sequences over {Start, Stop, Restart} up to length 4 (quick) / 6 (thorough) x {plain, plain+TLS} with 0..3 clients connecting, idling or disconnecting between calls (and, on the TLS port, clients that a common-name rule refuses after their handshake); after each call the promise of that call is probed, and at quiescent instants len(Conns()) must equal the number of client sockets held open (waiting on the conn.deregistered point, not on time). Start on a running server is tagged start-while-running. A goroutine leak is only reported when the count stays above baseline for the whole grace window; a goroutine parked at its own schedule point after Stop returned is a strict violation. Children are race-detector builds. distinct = scenario/sequence"
 		},
 		Exhaustive:    func(string) bool { return true },
 		Assumptions:   []string{"TLS listeners are configured through the file-based path with a PKI minted at run time", "wall-clock watchdogs only produce 'inconclusive'"},
